@@ -568,6 +568,31 @@ def run(lines, out, args):
                 after = sys.getrefcount(marker)
                 if after - before >= 50:
                     got = "FAIL: 100 calls of %s on an object whose __provides__ is not a specification left %d references to that value behind" % (ep, after - before)
+            elif scen == "mixrebase":
+                # a generation-checking registry V below registries that are TOLD of changes (V -> A2 -> A1): re-basing A1 or A2 is a
+                # change V can only learn from the generation counters of the registries in between.  `flavour` picks which of the
+                # two is re-based; no registration is made anywhere in V's old chain in between
+                A1, A1b = A.AdapterRegistry(), A.AdapterRegistry()
+                A0 = A.AdapterRegistry()
+                A1 = A.AdapterRegistry((A0,))
+                A2 = A.AdapterRegistry((A1,))
+                V = A.VerifyingAdapterRegistry((A2,))
+                A1b.register((IR,), IP, "", fac2)
+                A1b.subscribe((IR,), IP, fac2)
+                A0.register((IR,), IP, "", fac1)
+                A0.subscribe((IR,), IP, fac1)
+                warm = ask(V, ep, ob)
+                if flavour == "push":
+                    A2.__bases__ = (A1b,)
+                else:
+                    A1.__bases__ = (A1b,)
+                later = [ask(V, ep, ob) for _ in range(2)]
+                old, new = expect(ep, fac1), expect(ep, fac2)
+                if warm != old:
+                    got = "FAIL: %s answers %r before the re-basing, the chain holds %r" % (ep, warm, old)
+                elif any(x != new for x in later):
+                    got = ("FAIL: a registry between a generation-checking registry and the top was re-based (%s); %s on the generation-checking "
+                           "registry keeps answering %r, its current chain holds %r" % ("A2" if flavour == "push" else "A1", ep, later, new))
             elif scen == "delleak":
                 # the destructor re-entry of `delhook`, repeated: every round a cached factory dies inside the cache invalidation and its
                 # destructor performs a lookup (for a generation-checking registry: a complete nested changed()).  Nothing may be left
